@@ -170,13 +170,15 @@ def run(c, a):
     methods_tla = open(out).read()
     cases = []
     if c.pid == "C15":
-        cases = gen_cases(c, methods_tla, "cases_methods.cfg")
+        cases = gen_cases(c, methods_tla, "cases_methods_t.cfg" if c.tier == "thorough" else "cases_methods.cfg")
         # the verdict for a method must not depend on what was called before: admin methods are called before AND after the
         # workflow methods on the same server (same-named methods exist in both services)
         admin = [x for x in cases if x["m"]["service"] == "admin"]
         wf = [x for x in cases if x["m"]["service"] != "admin"]
         again = []
         for x in admin:
+            if x.get("fresh") or x["policy"].startswith("only:"):
+                continue
             y = dict(x)
             y["id"] = len(cases) + len(again) + 1
             again.append(y)
@@ -187,7 +189,20 @@ def run(c, a):
     # shard by (policy, mapping) groups so that every shard builds few cluster connections
     groups = {}
     for cs in cases:
-        groups.setdefault((cs["policy"], cs["mapping"], cs.get("transport", "tcp")), []).append(cs)
+        groups.setdefault((cs["policy"], cs["mapping"], cs.get("transport", "tcp"), cs["id"] if cs.get("fresh") else 0), []).append(cs)
+    # singleton policies: several cluster connections per process
+    merged, single = {}, []
+    for k in sorted(groups, key=str):
+        if k[0].startswith("only:"):
+            single.append(k)
+        else:
+            merged[k] = groups[k]
+    for j in range(0, len(single), 6):
+        merged[("only", True, "x", j)] = [cs for k in single[j:j + 6] for cs in groups[k]]
+    fresh = [k for k in merged if k[3] and k[0] != "only"]
+    for j in range(0, len(fresh), 4):
+        merged[("fresh", True, "x", j)] = [cs for k in fresh[j:j + 4] for cs in merged.pop(k)]
+    groups = merged
     files = []
     for i, k in enumerate(sorted(groups, key=str)):
         p = os.path.join(c.scratch, "pipe-in-%d.ndjson" % i)
